@@ -7,17 +7,31 @@
    callback log and checked: present key, eviction only while the value does not fit, stop only
    when it fits).
 
-   FULL PROPERTY (text of C08): for every history, size function >= 0 and limit > 0, the answers and
-   callback logs equal those of the reference LRU:  run_new hv lim ops = map ok_event (s2_run [] ops).
-   - for the heap variant [repaired] this is C08_refines_S2_repaired;
-   - for the heap variant [pinned] (the code as it is: known finding F2) it is FALSE of the
-     faithful model: C08_victim_refuted;
-   - everything in it except WHICH present entry is evicted first holds for EVERY variant:
-     C08_refines_S1_partial and C08_consistent. *)
+   FULL PROPERTY (text of C08): for every history, size function and limit > 0, the answers and
+   callback logs equal those of the reference LRU:  run_new hv lim ops = map ok_event (s2_run [] ops),
+   Size is the sum of the sizes of the present values and never exceeds the limit, Len is the number
+   of present keys.
+   - for the heap variant [repaired] the equality is C08_refines_S2_repaired (every size function,
+     negative ones included); Size <= limit is C08_consistent (sizes >= 0: with negative sizes no
+     cache can keep Size <= limit, see notes/C08-audit.md);
+   - for the heap variant [pinned] (the code as it is: known finding F2) the equality is FALSE of the
+     faithful model: C08_victim_refuted.  What holds of the pinned code, clause by clause:
+       answers of Get/Has, refusal of an oversized Put, Len, Size (= sum, <= limit), callback exactly
+       once per departing entry with its key and value, victims needed and present
+                                         EVERY history:   C08_refines_S1_partial, C08_consistent
+       victims are the least recently used entries, in order
+                                         every history on which the F2 trigger never fires:
+                                         C08_lru_partial (condition on the heap array before each
+                                         call, exact for "the call keeps the heap a heap":
+                                         C08_trigger_exact), in particular every [settled] history
+                                         (condition on the history alone): C08_lru_settled_partial.
+   Machine integers: the model computes in Z; C08_int64_range shows that is faithful when
+   2*limit < 2^63; C08_newsize_wraps is the counterexample beyond (a real misbehaviour of the Go
+   code for limit > 2^62, reported). *)
 From Coq Require Import ZArith List Bool.
 Import ListNotations.
-From Mds Require Import Heapq.HeapqModel Cache.CacheSpec Cache.CacheModel Cache.CacheWitness
-  Cache.CacheLruProofs Cache.CacheTheorems Cache.CacheTheoremsS2.
+From Mds Require Import Gen.CacheIdx Heapq.HeapqModel Heapq.HeapqSpec Cache.CacheSpec Cache.CacheModel Cache.CacheWitness
+  Cache.CacheLruProofs Cache.CacheTheorems Cache.CacheTheoremsS2 Cache.CacheInt.
 Local Open Scope Z_scope.
 
 (* For every heap variant, key type with decidable equality, size function >= 0, limit > 0 and
@@ -27,7 +41,8 @@ Local Open Scope Z_scope.
    larger than the limit is refused and changes nothing, a fitting Put reports the replaced entry
    then only needed victims that are present and ends within the limit, Remove/Clear report each
    departing entry exactly once with its key and value, nothing else is reported.
-   Missing w.r.t. the full property: the victims are the least recently used entries, in order. *)
+   Missing w.r.t. the full property: the victims are the least recently used entries, in order
+   (see C08_lru_partial for the histories on which the pinned code does that too). *)
 Theorem C08_refines_S1_partial :
   forall (K V : Type) (keqb : K -> K -> bool),
     (forall a b, keqb a b = true <-> a = b) ->
@@ -76,18 +91,18 @@ Example C08_consistent_ex :
             present (store c) = [(1, 1); (3, 0); (4, 2)].
 Proof. eexists. split; [vm_compute; reflexivity|]. split; vm_compute; reflexivity. Qed.
 
-(* THE FULL PROPERTY, under the repaired heap (parent (i-1)/2, pop sifts up as well): for every key
-   type with decidable equality, size function >= 0, limit > 0 and history, the results and the
-   callback logs of the model are exactly those of the reference LRU S2 (recency list; Put and
-   successful Get are uses, Has is not; a fitting Put reports the replaced entry, then evicts the
-   least recently used entries, in that order, exactly as long as needed; a Put larger than the
-   limit is refused and changes nothing; Len/Size are the number and total size of the present
-   entries; Remove and Clear report every departing entry once) — and no call panics. *)
+(* THE FULL PROPERTY's equality, under the repaired heap (parent (i-1)/2, pop sifts up as well): for
+   every key type with decidable equality, EVERY size function (zero and negative sizes included),
+   limit > 0 and history, the results and the callback logs of the model are exactly those of the
+   reference LRU S2 (recency list; Put and successful Get are uses, Has is not; a fitting Put
+   reports the replaced entry, then evicts the least recently used entries, in that order, exactly
+   as long as needed; a Put larger than the limit is refused and changes nothing; Len/Size are the
+   number and total size of the present entries; Remove and Clear report every departing entry
+   once) — and no call panics. *)
 Theorem C08_refines_S2_repaired :
   forall (K V : Type) (keqb : K -> K -> bool),
     (forall a b, keqb a b = true <-> a = b) ->
   forall (kzero : K) (vzero : V) (sizeOf : V -> Z),
-    (forall v, 0 <= sizeOf v) ->
   forall (lim : Z) (ops : list (op K V)),
     0 < lim ->
     run_new K V keqb kzero vzero sizeOf repaired lim ops = map ok_event (s2_run K V keqb vzero sizeOf lim [] ops).
@@ -98,6 +113,87 @@ Example C08_refines_S2_repaired_ex :
   s2_run Z Z Z.eqb 0 unit_size 2 [] [OPut 1 10; OPut 2 20; OGet 1; OPut 3 30; OHas 2; OGet 9]
   = [(RBool true, []); (RBool true, []); (RGet 10 true, []); (RBool true, [(2, 20)]); (RBool false, []); (RGet 0 false, [])].
 Proof. vm_compute. reflexivity. Qed.
+
+(* THE CODE AS IT IS (any heap whose pop never sifts up, in particular [pinned]): the same equality
+   with the reference LRU — eviction order included — for every history on which the F2 trigger
+   never fires.  [run_new_safe] (CacheModel.v) tests, before each call, the heapq.Remove(pos) that
+   call is about to make (Get, Remove, replacing Put: pos = the recorded offset of the key):
+   pos = 0, or pos is the last slot, or lastAccess(array[(pos-1)/2]) <= lastAccess(array[last]).
+   Every size function, every limit > 0; no panic.  Known finding F1 (pushUp's parent index) plays
+   no part: the store only ever adds an element younger than all others, so pushUp never moves
+   anything (CacheS2Proofs.hok_add). *)
+Theorem C08_lru_partial :
+  forall (K V : Type) (keqb : K -> K -> bool),
+    (forall a b, keqb a b = true <-> a = b) ->
+  forall (kzero : K) (vzero : V) (sizeOf : V -> Z),
+  forall (hv : variant), pop_no_siftup hv = true ->
+  forall (lim : Z) (ops : list (op K V)),
+    0 < lim ->
+    run_new_safe K V keqb kzero vzero sizeOf hv lim ops = true ->
+    run_new K V keqb kzero vzero sizeOf hv lim ops = map ok_event (s2_run K V keqb vzero sizeOf lim [] ops).
+Proof. exact refines_S2_no_trigger. Qed.
+Print Assumptions C08_lru_partial.
+
+(* non-vacuous: 20 calls at limit 7 with Get/Remove of interior heap slots after a Remove, six
+   evictions, on which the trigger never fires; and the trigger does fire on the F2 witness *)
+Definition safe_history : list (op Z Z) :=
+  [OPut 0 10; OPut 1 11; OPut 2 12; OPut 3 13; OPut 4 14; OPut 5 15; OPut 6 16; OPut 7 17;
+   OGet 4; ORemove 3; OPut 3 23; OGet 4; OPut 2 22; ORemove 5; OHas 1; OPut 8 18; OPut 1 21; OPut 9 19; OGet 0; OPut 10 20].
+Example C08_lru_partial_ex :
+  pop_no_siftup pinned = true /\
+  run_new_safe Z Z Z.eqb 0 0 unit_size pinned 7 safe_history = true /\
+  runZ pinned unit_size 7 safe_history = refZ unit_size 7 safe_history /\
+  nth 17 (runZ pinned unit_size 7 safe_history) EFuel = EOk (RBool true) [(6, 16)] /\
+  run_new_safe Z Z Z.eqb 0 0 unit_size pinned 7 f2_history = false.
+Proof. repeat split; vm_compute; reflexivity. Qed.
+
+(* ... in particular for every SETTLED history — a condition on the history alone, evaluated on the
+   reference (CacheSpec.settled): every call that finds its key present (Get, Remove, replacing
+   Put) either comes while at most 5 entries are present, or the last state-changing call before it
+   was an accepted Put, a successful Get or a Clear (not a successful Remove).  Histories without
+   Remove, and caches that never hold more than 5 entries, are settled. *)
+Theorem C08_lru_settled_partial :
+  forall (K V : Type) (keqb : K -> K -> bool),
+    (forall a b, keqb a b = true <-> a = b) ->
+  forall (kzero : K) (vzero : V) (sizeOf : V -> Z),
+  forall (hv : variant), pop_no_siftup hv = true ->
+  forall (lim : Z) (ops : list (op K V)),
+    0 < lim ->
+    settled K V keqb vzero sizeOf lim true [] ops = true ->
+    run_new K V keqb kzero vzero sizeOf hv lim ops = map ok_event (s2_run K V keqb vzero sizeOf lim [] ops).
+Proof. exact refines_S2_settled_history. Qed.
+Print Assumptions C08_lru_settled_partial.
+
+Example C08_lru_settled_partial_ex :
+  settled Z Z Z.eqb 0 unit_size 7 true [] safe_history = true /\
+  settled Z Z Z.eqb 0 unit_size 7 true [] f2_history = false /\
+  (* two successful Removes in a row with 7 entries: not settled, yet the trigger does not fire *)
+  settled Z Z Z.eqb 0 unit_size 7 true []
+    [OPut 0 10; OPut 1 11; OPut 2 12; OPut 3 13; OPut 4 14; OPut 5 15; OPut 6 16; ORemove 6; ORemove 2; OGet 1] = false /\
+  run_new_safe Z Z Z.eqb 0 0 unit_size pinned 7
+    [OPut 0 10; OPut 1 11; OPut 2 12; OPut 3 13; OPut 4 14; OPut 5 15; OPut 6 16; ORemove 6; ORemove 2; OGet 1] = true.
+Proof. repeat split; vm_compute; reflexivity. Qed.
+
+(* The trigger condition is exact for heap order: on a valid heap of LRU entries, when [rm_safe] is
+   false the removal (with a pop that never sifts up) leaves the moved entry at pos strictly older
+   than its parent — the array is no longer a heap.  (When it is true the heap stays a heap:
+   CacheS2Proofs.hok_pop_at, used by C08_lru_partial.) *)
+Theorem C08_trigger_exact :
+  forall (K V : Type) (hv : variant), pop_no_siftup hv = true ->
+  forall (d d' : list (prio K V)) (pos : Z) (m : moves (prio K V)) (out : prio K V),
+    heap_ok (prio K V) (compare_prio K V) d -> 0 <= pos < len d -> rm_safe K V d pos = false ->
+    pop (prio K V) hv (compare_prio K V) d pos = Ok (d', m, out) ->
+    exists moved par, get d' ((pos - 1) / 2) = Some par /\ get d' pos = Some moved /\
+                      lastAccess moved < lastAccess par /\ child ((pos - 1) / 2) pos.
+Proof. exact trigger_breaks_heap. Qed.
+Print Assumptions C08_trigger_exact.
+
+Definition pz (t k : Z) : prio Z Z := {| lastAccess := t; key := k; value := 0 |}.
+Example C08_trigger_exact_ex :
+  let d := [pz 1 1; pz 5 5; pz 2 2; pz 6 6; pz 7 7; pz 3 3] in
+  rm_safe Z Z d 3 = false /\
+  pop (prio Z Z) pinned (compare_prio Z Z) d 3 = Ok ([pz 1 1; pz 5 5; pz 2 2; pz 3 3; pz 7 7], [(pz 3 3, 3)], pz 6 6).
+Proof. split; vm_compute; reflexivity. Qed.
 
 (* Under the pinned heap (known finding F2) the full property is false of the faithful model: there
    is a history (15 calls, limit 7, unit sizes, corpus/C08) whose answers differ from the reference
@@ -113,3 +209,41 @@ Example C08_victim_refuted_witness :
   nth 14 (refZ unit_size 7 f2_history) EFuel = EOk (RBool true) [(5, 15)] /\
   runZ repaired unit_size 7 f2_history = refZ unit_size 7 f2_history.
 Proof. split; [|split]; vm_compute; reflexivity. Qed.
+
+(* cache.New panics for limit <= 0 ("cache: limit must be positive"), whatever follows *)
+Theorem C08_new_bad_limit :
+  forall (K V : Type) (keqb : K -> K -> bool) (kzero : K) (vzero : V) (sizeOf : V -> Z) (hv : variant)
+         (lim : Z) (ops : list (op K V)),
+    lim <= 0 -> run_new K V keqb kzero vzero sizeOf hv lim ops = [EPanic PBadLimit].
+Proof. exact new_bad_limit_panics. Qed.
+Print Assumptions C08_new_bad_limit.
+
+Example C08_new_bad_limit_ex : runZ pinned unit_size 0 [OLen] = [EPanic PBadLimit].
+Proof. vm_compute. reflexivity. Qed.
+
+(* Machine integers.  From a state with 0 <= size <= limit (C08_consistent) and an accepted value
+   size 0 <= valSize <= limit, Put's newSize := c.size + valSize lies in [0, 2*limit] and, when
+   2*limit < 2^63, is the same number in int64 arithmetic; every later value of newSize and size is
+   obtained by subtracting the size of a present entry and stays in [0, 2*limit] (CacheInt.v:
+   newsize_evict_range, size_sub_range). *)
+Theorem C08_int64_range :
+  forall lim, 2 * lim < 2 ^ 63 -> forall size vs, 0 <= size <= lim -> 0 <= vs <= lim ->
+    0 <= put_newsize_init size vs <= 2 * lim /\ wrap64 (put_newsize_init size vs) = put_newsize_init size vs.
+Proof. exact newsize_init_range. Qed.
+Print Assumptions C08_int64_range.
+
+Example C08_int64_range_ex : wrap64 (put_newsize_init (2 ^ 62 - 1) (2 ^ 62 - 1)) = 2 ^ 63 - 2.
+Proof. vm_compute. reflexivity. Qed.
+
+(* ... and beyond that range the Go code's int64 sum wraps: limit = 2^63-1 holding one entry of size
+   2^63-1, Put of another value of size 2^63-1: the property (and the Z model) evict, the int64
+   sum is -2, the loop condition is false, Size() becomes -2. *)
+Theorem C08_newsize_wraps :
+  let lim := 2 ^ 63 - 1 in
+  put_refuse lim lim = false /\
+  put_evict_continue (put_newsize_init lim lim) lim = true /\
+  wrap64 (put_newsize_init lim lim) = -2 /\
+  put_evict_continue (wrap64 (put_newsize_init lim lim)) lim = false /\
+  put_final_size (wrap64 (put_newsize_init lim lim)) = -2.
+Proof. exact newsize_wraps. Qed.
+Print Assumptions C08_newsize_wraps.
